@@ -127,6 +127,26 @@ let run_case (t : string list) : string =
      | Ok s -> "OK " ^ String.concat "," (List.map (fun z -> string_of_int (int_of_z z)) s)
      | Err _ -> "ERR"
      | Panic _ -> "PANIC")
+  | "menc" :: rest ->
+    let ints s = if s = "-" then [] else List.map zs (String.split_on_char ',' s) in
+    let show l = if l = [] then "-" else String.concat "," (List.map (fun z -> string_of_int (int_of_z z)) l) in
+    let res r = (match r with Ok p -> "OK " ^ show p | Err MUnrepresentable -> "ERR" | Err MKeywordSize -> "ERR" | Panic _ -> "PANIC") in
+    let optl s = if s = "n" then None else Some (ints s) in
+    (match rest with
+     | ["text"; kw; txt] -> res (enc_text (ints kw) (ints txt))
+     | ["ztxt"; kw; pre; txt] -> res (enc_ztxt k_mark (ints kw) (if pre = "1" then Compressed (k_mark (ints txt)) else Uncompressed (ints txt)))
+     | ["itxt"; kw; c; lang; trans; txt] -> res (enc_itxt k_mark (ints kw) (c = "1") (ints lang) (ints trans) (ints txt))
+     | ["fctl"; n; w; h; x; y; dn; dd; dop; bop] ->
+       show (enc_fctl { fc_seq = zs n; fc_w = zs w; fc_h = zs h; fc_x = zs x; fc_y = zs y; fc_dn = zs dn; fc_dd = zs dd; fc_dispose = zs dop; fc_blend = zs bop })
+     | ["header"; phys; srgb; gamma; chrm; icc; exif; actl; plte; trns] ->
+       let m = { m_phys = (match optl phys with Some [x; y; u] -> Some ((x, y), u) | _ -> None);
+                 m_srgb = (match optl srgb with Some [r] -> Some r | _ -> None);
+                 m_gamma = (match optl gamma with Some [g] -> Some g | _ -> None);
+                 m_chrm = optl chrm; m_icc = optl icc; m_exif = optl exif;
+                 m_actl = (match optl actl with Some [f; p] -> Some (f, p) | _ -> None);
+                 m_plte = optl plte; m_trns = optl trns } in
+       String.concat ";" (List.map (fun (ty, p) -> Printf.sprintf "%d:%s" (int_of_z ty) (show p)) (header_chunks k_mark m))
+     | _ -> "BADCASE")
   | ["expand"; dest; stride; p; line; width; bits; row] ->
     (match expand_pass_exec (unhex dest) (zs stride) (zs p) (zs line) (zs width) (zs bits) (unhex row) with
      | Some d -> hex d
